@@ -907,6 +907,20 @@ impl SerdeObject for Fq {
     }
 }
 
+#[cfg(feature = "verif-hooks")]
+impl Fq {
+    /// verif hook: the private const `montgomery_reduce` on eight arbitrary limbs
+    /// (result as raw Montgomery limbs).
+    pub fn verif_montgomery_reduce(r: [u64; 8]) -> [u64; 4] {
+        Fq::montgomery_reduce(r[0], r[1], r[2], r[3], r[4], r[5], r[6], r[7]).0.l
+    }
+
+    /// verif hook: the const limb subtraction `sub` used by `montgomery_reduce`.
+    pub fn verif_sub(lhs: &[u64; 4], rhs: &[u64; 4]) -> [u64; 4] {
+        sub(lhs, rhs)
+    }
+}
+
 #[cfg(test)]
 mod tests {
     use super::*;
